@@ -539,7 +539,10 @@ fn candidates(par: &Par, p: &Proj, unco_cands: &[i32], grow_steps: &[i32]) -> Ve
     }
     if par.kind == Kind::Rm {
         for &k in grow_steps {
-            if grow_legal(par, p.cur, k) {
+            // growth from a size that is not a multiple of the grain to beyond the grain is left
+            // to C27's grid (it meets a recorded finding there)
+            let c27_domain = p.cur % par.grain != 0 && p.cur + k > par.grain && p.cur + k <= par.max;
+            if grow_legal(par, p.cur, k) && !c27_domain {
                 v.push(Op::Grow { k });
             }
         }
